@@ -8,6 +8,8 @@ import (
 	"os"
 	"time"
 
+	lz4 "github.com/pierrec/lz4/v4"
+
 	"lz4verif/ref"
 )
 
@@ -103,6 +105,7 @@ func frameWrite(args []string) error {
 	fs := flag.NewFlagSet("frame-write", flag.ExitOnError)
 	in := fs.String("cases", "", "")
 	out := fs.String("out", "", "")
+	wd := fs.Duration("watchdog", 120*time.Second, "")
 	fs.Parse(args)
 	w, err := newNDW(*out)
 	if err != nil {
@@ -122,8 +125,33 @@ func frameWrite(args []string) error {
 			p := ref.ParseFrame(seg, false)
 			return len(p.Content), bytes.Equal(p.Content, in)
 		}
-		res, segs, panicked := runWriter(c.Opts, input, c.Calls, sink, &blocks, decode)
-		b := sink.buf.Bytes()
+		type wres struct {
+			res      []callRes
+			segs     []wseg
+			panicked string
+		}
+		ch := make(chan wres, 1)
+		go func() {
+			r, sg, p := runWriter(c.Opts, input, c.Calls, sink, &blocks, decode)
+			ch <- wres{r, sg, p}
+		}()
+		var res []callRes
+		var segs []wseg
+		var panicked string
+		select {
+		case r := <-ch:
+			res, segs, panicked = r.res, r.segs, r.panicked
+		case <-time.After(*wd):
+			// a call did not return: record it and stop this process (its state is tainted)
+			w.put(rec{"ev": "wrun", "case": c.ID, "hung": true, "opts": optsRec(c.Opts), "block": blockBytes(c.Opts)})
+			w.close()
+			printJSON(map[string]int{"cases": n, "hung": 1})
+			os.Exit(0)
+		}
+		if sink.runaway {
+			panicked = "runaway: the Writer wrote more than the sink limit"
+		}
+		b := sink.bytes()
 		if c.Save != "" {
 			if err := os.WriteFile(c.Save, b, 0o644); err != nil {
 				return err
@@ -139,8 +167,8 @@ func frameWrite(args []string) error {
 			frames = append(frames, fr)
 		}
 		e := rec{"ev": "wrun", "case": c.ID, "opts": optsRec(c.Opts), "inputLen": len(input), "inputSha": shaID(input),
-			"calls": res, "sinkCalls": sink.calls, "sinkLen": len(b), "panicked": panicked, "handler": blocks,
-			"frames": frames, "block": blockBytes(c.Opts),
+			"calls": res, "sinkCalls": sink.callSizes(), "sinkLen": len(b), "panicked": panicked, "handler": blocks,
+			"frames": frames, "block": blockBytes(c.Opts), "hung": false,
 			"small": len(b) <= smallFrame && len(input) <= smallFrame && len(segs) == 1}
 		if len(b) <= smallFrame && len(input) <= smallFrame && len(segs) == 1 {
 			e["bytes"] = ints(b)
@@ -155,7 +183,7 @@ func frameWrite(args []string) error {
 	if err := w.close(); err != nil {
 		return err
 	}
-	printJSON(map[string]int{"cases": n})
+	printJSON(map[string]int{"cases": n, "hung": 0})
 	return nil
 }
 
@@ -350,6 +378,135 @@ func frameRead(args []string) error {
 		w.put(e)
 		if o.Outcome == "hang" {
 			// the process is tainted by the abandoned goroutine: stop this batch here
+			w.close()
+			printJSON(map[string]int{"cases": n, "hung": 1})
+			os.Exit(0)
+		}
+		return nil
+	})
+	if err != nil {
+		return err
+	}
+	if err := w.close(); err != nil {
+		return err
+	}
+	printJSON(map[string]int{"cases": n, "hung": 0})
+	return nil
+}
+
+// ---- Reader call sequences (C17)
+
+type rseqCall struct {
+	Op string `json:"op"`
+	Sz int    `json:"sz"`
+}
+
+type rseqCase struct {
+	ID       int        `json:"id"`
+	Chunks   []chunk    `json:"chunks"`
+	Trailing []int      `json:"trailing,omitempty"`
+	Calls    []rseqCall `json:"calls"`
+	Conc     int        `json:"conc"`
+	Content  *inputSpec `json:"content,omitempty"`
+}
+
+func init() { register("reader-seq", readerSeq) }
+
+// readerSeq executes arbitrary call sequences (Read, WriteTo, Size, Apply, Reset) on a Reader whose
+// source holds one valid frame followed by optional trailing bytes.
+func readerSeq(args []string) error {
+	fs := flag.NewFlagSet("reader-seq", flag.ExitOnError)
+	in := fs.String("cases", "", "")
+	out := fs.String("out", "", "")
+	wd := fs.Duration("watchdog", 20*time.Second, "")
+	fs.Parse(args)
+	w, err := newNDW(*out)
+	if err != nil {
+		return err
+	}
+	n := 0
+	err = readND(*in, func(line []byte) error {
+		var c rseqCase
+		if err := json.Unmarshal(line, &c); err != nil {
+			return err
+		}
+		n++
+		frame, err := buildSource(rcase{Chunks: c.Chunks})
+		if err != nil {
+			return err
+		}
+		data := append(append([]byte{}, frame...), bytesOf(c.Trailing)...)
+		var content []byte
+		if c.Content != nil {
+			content = c.Content.build()
+		}
+		type result struct {
+			calls    []rec
+			panicked string
+			prefixOK bool
+			same     bool
+		}
+		done := make(chan result, 1)
+		go func() {
+			res := result{prefixOK: true}
+			defer func() {
+				if r := recover(); r != nil {
+					res.panicked = fmt.Sprint(r)
+				}
+				done <- res
+			}()
+			src := &fragReader{data: data}
+			zr := lz4.NewReader(src)
+			if c.Conc != 1 {
+				_ = zr.Apply(lz4.ConcurrencyOption(c.Conc))
+			}
+			var delivered []byte
+			for _, call := range c.Calls {
+				before := src.pos
+				e := rec{"op": call.Op, "sz": call.Sz, "n": 0, "err": "none", "size": []int{0, 0, 0, 0}}
+				switch call.Op {
+				case "read":
+					buf := make([]byte, call.Sz)
+					k, err := zr.Read(buf)
+					e["n"], e["err"] = k, classify(err)
+					if k > 0 && k <= call.Sz {
+						delivered = append(delivered, buf[:k]...)
+					}
+				case "writeto":
+					var ob bytes.Buffer
+					k, err := zr.WriteTo(&ob)
+					e["n"], e["err"] = int(k), classify(err)
+					delivered = append(delivered, ob.Bytes()...)
+				case "size":
+					l := u64limbs(uint64(zr.Size()))
+					e["size"] = l[:]
+				case "apply":
+					e["err"] = classify(zr.Apply(lz4.ConcurrencyOption(c.Conc)))
+				case "reset":
+					if !isPrefix(delivered, content) {
+						res.prefixOK = false
+					}
+					delivered = nil
+					src = &fragReader{data: data}
+					before = 0
+					zr.Reset(src)
+				}
+				e["cons"] = src.pos - before
+				res.calls = append(res.calls, e)
+			}
+			if !isPrefix(delivered, content) {
+				res.prefixOK = false
+			}
+			res.same = bytes.Equal(delivered, content)
+		}()
+		e := rec{"ev": "rseq", "case": c.ID, "total": len(content), "conc": c.Conc, "frameLen": len(frame)}
+		select {
+		case r := <-done:
+			e["calls"], e["panicked"], e["prefixok"], e["same"], e["hung"] = r.calls, r.panicked, r.prefixOK, r.same, false
+			w.put(e)
+		case <-time.After(*wd):
+			e["calls"], e["panicked"], e["prefixok"], e["same"], e["hung"] = []rec{}, "", false, false, true
+			w.put(e)
 			w.close()
 			printJSON(map[string]int{"cases": n, "hung": 1})
 			os.Exit(0)
